@@ -162,3 +162,26 @@ Definition reflective (k : opkind) (form_st : option nat) (g : list nat * option
           | KForm => (form_st, None)
           end
   end.
+
+(* ---- the response format stage. Both entry points negotiate the response format (Accept against the operation's
+   produces list) AFTER the gate and only when the gate collected no error: a refusal of the gate is served whatever
+   the Accept header says. acc_ok = the request's Accept header can be satisfied by one of the (non-empty list of)
+   media types the operation produces, or there is no Accept header - an oracle: the harness asks
+   middleware.NegotiateContentType itself on a request of its own (negotiation is the subject of C07).
+     reflective entry points (validateRequest): contentType, then responseFormat: 406, then the parameter stage;
+     Context.BindValidRequest: the gate, then NegotiateContentType with the request's own media type as the default
+     offer: 406 only for a request without body, then the binder ---- *)
+Definition not_acceptable : nat := 406.
+
+Definition reflective_acc (k : opkind) (form_st : option nat) (acc_ok : bool) (g : list nat * option bytes)
+  : option nat * option bytes :=
+  match fst g with
+  | c :: _ => (Some c, None)
+  | [] => if acc_ok then reflective k form_st g else (Some not_acceptable, None)
+  end.
+
+Definition typed_acc (hasbody acc_ok : bool) (g : list nat * option bytes) : option nat * option bytes :=
+  match fst g with
+  | c :: _ => (Some c, None)
+  | [] => if negb hasbody && negb acc_ok then (Some not_acceptable, None) else (None, snd g)
+  end.
